@@ -9,10 +9,25 @@ import json
 from harness import e2e
 
 
+def to_draft7(s):
+    """draft-4 boolean exclusive flags rewritten the way the specification defines them (true: the bound becomes the
+    exclusive bound; false: inclusive), so that one reference validator (Draft 7) reads both spellings"""
+    if isinstance(s, list):
+        return [to_draft7(v) for v in s]
+    if not isinstance(s, dict):
+        return s
+    out = {k: to_draft7(v) for k, v in s.items()}
+    for flag, bound in (("exclusiveMinimum", "minimum"), ("exclusiveMaximum", "maximum")):
+        if isinstance(out.get(flag), bool):
+            if out.pop(flag) and bound in out:
+                out[flag] = out.pop(bound)
+    return out
+
+
 def reference_valid(schema, inst):
+    """the jsonschema package (Draft 7) as reference validator"""
     import jsonschema
-    cls = jsonschema.Draft7Validator
-    return not list(cls(schema).iter_errors(inst))
+    return not list(jsonschema.Draft7Validator(to_draft7(schema)).iter_errors(inst))
 
 
 # ------------------------------------------------------------------------------------------
@@ -49,12 +64,18 @@ def scalar(rng, constrained=True):
     return s
 
 
+def nullable_enum(rng):
+    return {"type": ["string", "null"], "enum": rng.sample(["a", "b", "c d"], 2) + [None]}
+
+
 def prop(rng, names, depth):
     r = rng.random()
     if r < 0.45 or depth >= 2:
         s = scalar(rng)
         if rng.random() < 0.12:
             s = {"type": [s["type"], "null"]}
+        elif rng.random() < 0.08:
+            s = nullable_enum(rng)
         return s
     if r < 0.55:
         return {"enum": rng.choice([["a", "b"], [1, 2, 3], ["x"]]), "type": rng.choice(["string", None])} if False else {"type": "string", "enum": rng.sample(["a", "b", "c d", "e-f"], 2)}
@@ -70,9 +91,12 @@ def prop(rng, names, depth):
     if r < 0.8 and names:
         return {"$ref": "#/definitions/" + rng.choice(names)}
     if r < 0.87:
-        return {"anyOf": [scalar(rng, False), {"type": "array", "items": scalar(rng, False)}]} if rng.random() < 0.5 else {"anyOf": [{"type": "string"}, {"type": "integer"}]}
+        key = rng.choice(["anyOf", "anyOf", "oneOf"])
+        if rng.random() < 0.15:
+            return {key: [nullable_enum(rng), {"type": "integer"}]}
+        return {key: [scalar(rng, False), {"type": "array", "items": scalar(rng, False)}]} if rng.random() < 0.5 else {key: [{"type": "string"}, {"type": "integer"}]}
     if r < 0.93:
-        return {"type": "object", "additionalProperties": scalar(rng, False)}
+        return {"type": "object", "additionalProperties": nullable_enum(rng) if rng.random() < 0.15 else scalar(rng, False)}
     return obj(rng, names, depth + 1)
 
 
@@ -158,9 +182,10 @@ def valid_instance(rng, doc, s, depth=0, boundary=None):
     if "const" in s:
         return s["const"]
     if "enum" in s:
-        return rng.choice([e for e in s["enum"] if e is not None] or [None])
-    if "anyOf" in s:
-        return valid_instance(rng, doc, rng.choice(s["anyOf"]), depth + 1, boundary)
+        return rng.choice(s["enum"])
+    for key in ("anyOf", "oneOf"):
+        if key in s:
+            return valid_instance(rng, doc, rng.choice(s[key]), depth + 1, boundary)
     t = s.get("type")
     if isinstance(t, list):
         nn = [x for x in t if x != "null"]
@@ -304,6 +329,14 @@ class Built:
         from pydantic import TypeAdapter
         return TypeAdapter(self.root).validate_python(inst)
 
+    def accepts_strict(self, inst):
+        """pydantic v2 on exactly typed JSON (no lax coercion): the JSON text validated in strict mode"""
+        try:
+            self.root.model_validate_json(json.dumps(inst), strict=True)
+            return True
+        except Exception:  # noqa: BLE001
+            return False
+
     def accepts(self, inst):
         try:
             self.validate(inst)
@@ -380,7 +413,7 @@ def norm_reported(schema):
         if "required" in kws:
             kws["required"] = sorted(kws["required"])
         if "enum" in kws:
-            kws["enum"] = sorted(map(repr, kws["enum"]))
+            kws["enum"] = sorted(map(repr, [e for e in kws["enum"] if e is not None]))
         if kws:
             out[ptr] = kws
         for p, ps in s.get("properties", {}).items():
@@ -443,7 +476,7 @@ def norm_input(doc):
         if "required" in kws:
             kws["required"] = sorted(kws["required"])
         if "enum" in kws:
-            kws["enum"] = sorted(map(repr, kws["enum"]))
+            kws["enum"] = sorted(map(repr, [e for e in kws["enum"] if e is not None]))
         if kws:
             out[ptr] = kws
         for p, ps in s.get("properties", {}).items():
